@@ -184,6 +184,14 @@ class Sim:
         sm = m.sheets[si]
         ti = t % len(sm.tables)
         tm = sm.tables[ti]
+        if tm.pivot:
+            # edits to a pivot table are not written by the library (documented, warned): not generated.
+            # fall back to the first non-pivot table of the sheet, if any
+            alt = [k for k, t2 in enumerate(sm.tables) if not t2.pivot]
+            if alt:
+                ti = alt[t % len(alt)]
+                tm = sm.tables[ti]
+                self.probe("pivot_table_avoided")
         table = ds.doc.sheets[si].tables[ti] if self.real else None
         return si, ti, tm, table
 
@@ -411,6 +419,11 @@ class Sim:
             sm = SheetM(sheet.name)
             for table in sheet.tables:
                 tm = TableM(table.name, 0, 0, table.num_header_rows, table.num_header_cols)
+                try:
+                    # the one documented exception: the library warns that it does not write pivot tables
+                    tm.pivot = bool(doc._model.is_a_pivot_table(table._table_id))
+                except Exception:  # noqa: BLE001
+                    tm.pivot = False
                 rows = []
                 for r, drow in enumerate(table.rows()):
                     row = []
@@ -959,8 +972,14 @@ def op_restart(sim: Sim, a) -> str:
                       f"a file saved without fault does not reopen: {type(e).__name__}: {e}\n{_tb(e)}")
     sim.stats["restarts_ok"] += 1
     sim.check_doc(doc, slot.model, where=f"reopened {slot.name}", after="restart", reopened=True)
-    for fn in sim.cfg.get("_reopen_checks", []):
-        fn(sim, doc, slot)
+    if sim.cfg.get("_reopen_checks"):
+        # deep reads go to a separate probe instance so that the working instance stays unqueried
+        # (reading fills caches that the next save consults: an observation is an event)
+        with warnings.catch_warnings():
+            warnings.simplefilter("ignore")
+            probe_doc = Document(path) if sim.cfg.get("probe_reads", True) else doc
+        for fn in sim.cfg.get("_reopen_checks", []):
+            fn(sim, probe_doc, slot)
     if sim.faults_pending_liveness:
         sim.probe("recovered_after_fault")
         sim.faults_pending_liveness = False
